@@ -19,6 +19,9 @@ def h2_handler_factory(log):
         elif isinstance(ev, h2.events.StreamEnded):
             r = peer.reqs[ev.stream_id]
             log.append((peer, ev.stream_id, r))
+            if (r["path"] or b"").startswith(b"/rst"):
+                peer.conn.reset_stream(ev.stream_id, error_code=2)        # the server refuses this one request; the connection lives on
+                return
             body = b"echo:" + r["path"] + b":" + r["body"]
             peer.conn.send_headers(ev.stream_id, [(":status", "200"), ("content-length", str(len(body)))])
             peer.conn.send_data(ev.stream_id, body, end_stream=True)
@@ -85,6 +88,10 @@ class World:
         try:
             if kind == "req":
                 u = self.url(op[1])
+                r = self.pool.request("GET", u, extensions={"timeout": {"pool": 0}})
+                return ("ok", {"status": r.status, "body": r.content, "url": u})
+            if kind == "req_rst":
+                u = self.url(op[1], path=f"rst{self.counter}" if self.http2 else None)
                 r = self.pool.request("GET", u, extensions={"timeout": {"pool": 0}})
                 return ("ok", {"status": r.status, "body": r.content, "url": u})
             if kind == "open":
